@@ -35,7 +35,7 @@ TABLE = {
     "acc:str": ("str", ["acc:str", "accstr"]),
     "tech:wantsol": ("int", ["tech:wantsol", "wantsol"]),
     "obj:no": ("int", ["obj:no", "objno"]),
-    "tech:debug": ("flag", ["tech:debug", "debug", "dbg"]),
+    "tech:turbo": ("flag", ["tech:turbo", "turbo", "trb"]),
 }
 WILD = {"wc_int": ("int", [("obj:", ":priority"), ("obj_", "_priority")]), "wc_dbl": ("dbl", [("obj:", ":weight"), ("obj_", "_weight")])}
 UNKNOWN = ["bogus", "lim:itr", "iterlimx", "obj:priority", "tech:", "x", "timelim2", "obj:*:priority", "ITER_LIM"]
@@ -96,7 +96,7 @@ INT_VALUES = st.one_of(st.integers(-2 ** 31, 2 ** 31 - 1), st.sampled_from([0, 1
 DBL_VALUES = st.one_of(st.floats(allow_nan=False, allow_infinity=False), st.sampled_from([0.0, -0.0, 1e-9, 0.1, 1e300, -2.5, 5e-324, 1.7976931348623157e308]),
                        st.integers(-10 ** 6, 10 ** 6).map(float))
 TOKEN_CHARS = st.characters(min_codepoint=33, max_codepoint=255, blacklist_characters="'\"")   # latin-1, no blanks, no quotes
-UNQUOTED = st.text(TOKEN_CHARS, min_size=1, max_size=12).filter(lambda s: s != "?")
+UNQUOTED = st.text(TOKEN_CHARS, min_size=1, max_size=12).filter(lambda s: s != "?" and s[0] != "=")     # "name =x" reads '=' as the separator
 INNER = st.text(st.characters(min_codepoint=32, max_codepoint=255, blacklist_characters="'\""), min_size=0, max_size=14)
 
 
@@ -127,13 +127,13 @@ def item(draw, source):
     """One element of an option string: returns (text, effect) with effect in
        ('set', canon, value) | ('setwc', which, body, value) | ('query', canon) | ('flag', canon) | ('unknown', name) | ('flagvalue', canon)
        plus `last`: True if the item must be the last of its command-line argument (string values there run to the end)."""
-    kind = draw(st.sampled_from(["set"] * 8 + ["wild", "query", "flag", "unknown", "flagvalue"]))
+    kind = draw(st.sampled_from(["set"] * 8 + ["wild", "query", "flag", "unknown", "flagvalue", "overflow"]))
     sep = draw(st.sampled_from(["=", "=", " = ", " ", "= ", " =", "\t=\t"]))
     if kind == "wild":
         which = draw(st.sampled_from(sorted(WILD)))
         typ, forms = WILD[which]
         head, tail = draw(st.sampled_from(forms))
-        body = draw(st.sampled_from(["1", "2", "10", "abc", "x_y", "1:2"]))
+        body = draw(st.sampled_from(["1", "2", "10", "abc", "x_y", "1:2", "b" * 45, "long" * 30]))
         name = vary_case(draw, head) + body + vary_case(draw, tail)
         # synonyms of a wildcard option are matched case-sensitively on head and tail (rfind); keep the documented spelling
         name = head + body + tail
@@ -142,6 +142,11 @@ def item(draw, source):
             return name + sep + draw(int_text(v)), ("setwc", which, body, v), False
         v = draw(DBL_VALUES)
         return name + sep + draw(dbl_text(v)), ("setwc", which, body, v), False
+    if kind == "overflow":       # an integer that no int option can hold: must be refused, never stored as another number
+        canon = draw(st.sampled_from(["lim:iter", "alg:method", "acc:int", "tech:wantsol", "obj:no"]))
+        name = vary_case(draw, draw(st.sampled_from(TABLE[canon][1])))
+        v = draw(st.sampled_from([2 ** 31, -2 ** 31 - 1, 3000000000, 2 ** 32 + 1, 2 ** 63, -2 ** 63 - 1, 10 ** 25, -10 ** 30, 2 ** 32]))
+        return name + sep + str(v), ("overflow", canon, v), False
     if kind == "unknown":
         name = draw(st.sampled_from(UNKNOWN))
         val = draw(st.sampled_from(["5", "-1", "0.5", "1e3"]))
@@ -170,7 +175,7 @@ def item(draw, source):
         return name + sep + draw(dbl_text(v)), ("set", canon, v), False
     # string
     if source == "arg":
-        v = draw(st.one_of(UNQUOTED, st.text(st.characters(min_codepoint=32, max_codepoint=255), min_size=1, max_size=14).filter(lambda s: not s[0].isspace() and s != "?" and not (s[0] == "?" and s[1:2].isspace()))))
+        v = draw(st.one_of(UNQUOTED, st.text(st.characters(min_codepoint=32, max_codepoint=255), min_size=1, max_size=14).filter(lambda s: not s[0].isspace() and s[0] != "=" and s != "?" and not (s[0] == "?" and s[1:2].isspace()))))
         return name + sep + v, ("set", canon, v), True
     if draw(st.booleans()):
         v = draw(UNQUOTED)
@@ -203,7 +208,7 @@ def source_text(draw, source, max_items=4):
 def cases(draw):
     handler = draw(st.sampled_from(["record", "record", "throw"]))
     use_exe = draw(st.integers(0, 3)) == 0
-    exe = draw(st.sampled_from(["/usr/bin/myexe", "myexe.exe", "./dir.d/myexe", "C:\\\\x\\\\myexe.app"])) if use_exe else ""
+    exe = draw(st.sampled_from(["/usr/bin/myexe", "myexe.exe", "./dir.d/myexe", "/opt/x/myexe.app"])) if use_exe else ""
     srcs = []      # (kind, name, text, effects) in the order the code must apply them
     if draw(st.booleans()):
         t, e = draw(source_text("env"))
@@ -241,11 +246,16 @@ def expected(case, defaults):
                 wc[e[1]][e[2]] = e[3]
             elif e[0] == "flag":
                 vals[e[1]] = 1
+            elif e[0] == "overflow":      # InvalidOptionValue-style exception, thrown past either handler: parsing stops here
+                stopped = "overflow"
+                break
             elif e[0] in ("unknown", "flagvalue"):
                 errors += 2 if e[0] == "unknown" else 1     # the value of an unknown name is then read as a name: unknown again
                 if case["handler"] == "throw":
                     stopped = True
                     break
+        if stopped:
+            break
     return vals, wc, errors, stopped
 
 
@@ -292,6 +302,7 @@ def check(case, res):
     nontrivial = nsrc >= 2 and len(assigned) > len(set(assigned)) and len(forms) >= 3
     res.case(common.h(rc_case), nontrivial, sample=(dict(env=rc_case["env"], args=rc_case["args"]) if nontrivial else None),
              labels=["handler:" + case["handler"]] + (["malformed-tail"] if case["tail"] else []) + (["exe-var"] if case["exe"] else []) + ["effect:" + e[0] for e in effects[:6]])
+    rc_case = case          # the replay file keeps the generated structure (sources + expected effects)
     if j is None:
         return ("parser crashed: %s" % (common.crash_head(err) or err[-300:]), rc_case, "crash")
     if j["thrown_type"] == "std::exception":
@@ -311,7 +322,12 @@ def check(case, res):
         for k, v in wc[which].items():
             if not same(typ, v, g[k]):
                 return ("wildcard option %s[%s]: expected %r, parser has %r" % (which, k, v, g[k]), rc_case, "wildcard")
-    if case["handler"] == "record":
+    if stopped == "overflow":
+        if not j["thrown"] or "range" not in j["thrown"]:
+            return ("an integer value outside the int range was not refused (thrown: %r)" % j["thrown"][:100], rc_case, "overflow")
+        if case["handler"] == "record" and len(j["errors"]) != nerr:
+            return ("expected %d reported errors before the out-of-range value, got %d" % (nerr, len(j["errors"])), rc_case, "error-count")
+    elif case["handler"] == "record":
         if len(j["errors"]) != nerr:
             return ("expected %d reported errors, got %d: %r" % (nerr, len(j["errors"]), j["errors"][:3]), rc_case, "error-count")
         if j["ret"] != (nerr == 0):
@@ -329,10 +345,27 @@ def check(case, res):
 def run(ctx):
     common.build("build/prod/opt_shim", "build/fuzz/fuzz_opts")
     res = hyp.run_property(ctx, cases(), check, ctx.pick(16000, 600000))
+    import glob
+    for f in sorted(glob.glob(os.path.join(common.ROOT, "regress", ctx.pid, "*.json"))):
+        case = json.load(open(f))
+        case["srcs"] = [tuple(s[:3]) + ([tuple(e) for e in s[3]],) for s in case["srcs"]]
+        v = check(case, res)
+        if v:
+            res.violation("regression input fails again: %s: %s" % (os.path.basename(f), v[0]), None, f)
     # coverage-guided part: arbitrary bytes
     from .. import fuzzrun
-    fres = fuzzrun.campaign(ctx, "fuzz_opts", corpus="fuzz/corpus_opts", max_len=600, runs=ctx.pick(400000, 12000000), oracle_tag="C11-ORACLE-VIOLATION")
-    res.merge(fres)
+    fres = common.Result()
+    camp = fuzzrun.campaign(ctx, fres, os.path.join(common.BUILD, "fuzz", "fuzz_opts"), os.path.join(common.ROOT, "corpus", "C11"),
+                            ctx.pick(30000, 1500000), 600, "C11-ORACLE-VIOLATION", dictp=os.path.join(common.ROOT, "fuzz", "opts.dict"), nontrivial_key="set_any")
+    res.evaluations += fres.evaluations
+    res.violations.extend(fres.violations)
+    res.inconclusive += fres.inconclusive
+    res.notes.extend(fres.notes)
+    res.extra.update(fres.extra)
+    res.labels["fuzz_executions"] = fres.evaluations
+    res.labels["fuzz_distinct_units_that_set_an_option"] = len(fres.nontrivial) if isinstance(fres.nontrivial, set) else fres.nontrivial
+    for k in ("threw", "with_errors", "clean", "set_any"):
+        res.labels["fuzz_" + k] = int(camp.get(k, 0))
     return common.finish(ctx, res, "exploration", RULE + "; plus libFuzzer executions of fuzz_opts on arbitrary bytes (counted in evaluations)",
                          ["a string value given on the command line extends to the end of that argument (documented: the shell has already split and unquoted it)",
                           "an unknown name's value is itself read as a name (so it is generated numeric, and two errors are expected with a recording handler)",
@@ -344,7 +377,18 @@ def run(ctx):
 
 def replay(ctx, path):
     common.build("build/prod/opt_shim")
-    case = json.load(open(path))
+    try:
+        case = json.load(open(path))
+    except ValueError:          # a libFuzzer artifact
+        from .. import fuzzrun
+        common.build("build/fuzz/fuzz_opts")
+        rc, err = fuzzrun.run_files(os.path.join(common.BUILD, "fuzz", "fuzz_opts"), [path])
+        if rc != 0:
+            print("VIOLATION property=%s replay=%s" % (ctx.pid, path))
+            print("  " + fuzzrun.classify(err, "C11-ORACLE-VIOLATION"))
+            return 1
+        print("replay passes: %s" % path)
+        return 0
     if "srcs" in case:
         case["srcs"] = [tuple(s[:3]) + ([tuple(e) for e in s[3]],) for s in case["srcs"]]
         res = common.Result()
